@@ -323,7 +323,7 @@ def _atom_strategy(fmt):
     return st.fixed_dictionaries({
         'name': name, 'resname': resname, 'resid': resid,
         'chain': st.one_of(st.none(), st.sampled_from(['', 'A', 'B', 'Z', '1', 'AB'])),
-        'icode': st.one_of(st.none(), st.none(), st.sampled_from(['', 'A', 'B'])),
+        'icode': st.one_of(st.none(), st.none(), st.sampled_from(['', 'A', 'B', '1', '0', 'z'])),
         'element': st.one_of(st.none(), st.none(), st.sampled_from(['C', 'N', 'FE', 'H'])),
         'pos': st.lists(coord, min_size=3, max_size=3),
         'vel': st.lists(st.integers(-30000, 30000), min_size=3, max_size=3),
